@@ -6517,8 +6517,10 @@ class Choice:
     def _selection_from_defaults(self):
         # Check if we have a default
         for sym, cond in self.defaults:
-            # The default symbol must be visible too
-            if expr_value(cond) and sym.visibility:
+            # The default symbol must be visible too. A default that names a symbol outside the choice (which only
+            # gives a note at load time) can never be the selection: no symbol of the choice would be y, and asking
+            # for its visibility may lead back here, as nothing registers it as a dependency of the choice
+            if sym.choice is self and expr_value(cond) and sym.visibility:
                 return sym
 
         # Otherwise, pick the first visible symbol, if any
